@@ -73,6 +73,15 @@ def gen_cases(tier, seed, shard, nshards):
                 lab = "QQ " if mn == "EQU" else " "
                 yield {"id": "data/%s/%s" % (mn, op), "mode": "layout", "kinds": [None, None, "data." + mn.lower(), None, None],
                        "lines": [" ORG $3000\n", "SZ EQU 3\n", "%s%s %s\n" % (lab, mn, op), "AFTER NOP\n", " JMP AFTER\n"], "equs": {"SZ": 3}}
+        # one label referenced at several operand widths, and label arithmetic in one-byte slots, each followed by labels
+        for org in (0x80, 0x10, 0x1000):
+            body = ["VAR RMB 1\n", "W2 RMB 2\n", "F1 FCB VAR\n", "F2 FDB VAR\n", "F3 FCB VAR\n", "I1 LDA <VAR\n", "I2 LDX #VAR\n", "I3 LDA VAR\n", "I4 LDA #W2-VAR\n",
+                    "I5 LDB #LAST-W2\n", "F4 FCB W2-VAR\n", "F5 FDB LAST-VAR\n", "I6 LDA >VAR\n", "I7 LDX [VAR]\n", "F6 FDB VAR\n", "I8 CMPA #W2-VAR\n", "LAST NOP\n"]
+            if org >= 0x100:
+                body = [l for l in body if "<VAR" not in l and not l.startswith("F1 ") and not l.startswith("F3 ")]
+            for rot in range(0, len(body) - 3, 3):
+                lines = [" ORG $%X\n" % org] + body[:2] + body[2 + rot:-1] + body[2:2 + rot] + body[-1:]
+                yield {"id": "shared/%x/%d" % (org, rot), "mode": "layout", "kinds": None, "form": "shared-label-widths", "lines": lines}
         # must-reject programs
         for mn in ("NOP", "LDA #1", "FCB 1,2", "RMB 4", "EQU 5", "FDB 1", "FCC \"AB\""):
             yield {"id": "dup/%s" % mn, "mode": "reject", "form": "duplicate-label",
